@@ -223,6 +223,23 @@ func (e *kvElection) Start(ctx context.Context) error {
 		)...,
 	)
 
+	// When the caller's context ends, every loop ends with it: a leader must then give
+	// up its claim (nobody refreshes its record any more), with the demotion callback.
+	go func(run, parent context.Context) {
+		<-run.Done()
+		if parent.Err() == nil {
+			return // ended by Stop/StopWithContext
+		}
+		e.mu.RLock()
+		current := e.ctx == run
+		e.mu.RUnlock()
+		if current && e.IsLeader() {
+			if e.becomeFollower() {
+				e.notifyDemoted("context_cancelled")
+			}
+		}
+	}(e.ctx, ctx)
+
 	e.wg.Add(1)
 	go func() {
 		defer e.wg.Done()
